@@ -109,7 +109,7 @@ fn forms(ctx: &mut Ctx, env: &Env, rng: &mut Rng, base: &Engine, descr: &str) {
 
 fn corrupt(rng: &mut Rng, line: &str) -> (String, &'static str) {
     let bytes = line.as_bytes();
-    match rng.below(14) {
+    match rng.below(17) {
         0 => {
             // delete a token-ish chunk
             let a = rng.below(bytes.len());
@@ -148,10 +148,23 @@ fn corrupt(rng: &mut Rng, line: &str) -> (String, &'static str) {
             }
             (s, "10k-characters")
         }
-        _ => {
+        13 => {
             let n = rng.range(1, 30);
             let v: Vec<u8> = (0..n).map(|_| (rng.next_u64() % 95 + 32) as u8).collect();
             (String::from_utf8_lossy(&v).to_string(), "random-ascii")
+        }
+        _ => {
+            // long multi-byte text in every error path (messages that quote or cut the input
+            // must respect character boundaries): 0, 1 or 2 spaces, ASCII prefix of any length
+            let uni: String = (0..rng.range(20, 60)).map(|_| *rng.pick(&['あ', 'é', '𝄞', 'ｘ', 'ß', '中'])).collect();
+            let pre: String = (0..rng.range(0, 70)).map(|_| (b'0' + rng.below(10) as u8) as char).collect();
+            match rng.below(5) {
+                0 => (format!("{}{}", pre, uni), "unicode-no-space"),
+                1 => (format!("{} {}{}", rng.range(0, 99999), pre, uni), "unicode-one-space"),
+                2 => (format!("{}{} {}", pre, uni, uni), "unicode-one-space"),
+                3 => (format!("{}{} {} {}", pre, uni, uni, line), "unicode-times"),
+                _ => (format!("{} {} {}{}", rng.range(0, 999), rng.range(1000, 99999), pre, uni), "unicode-label"),
+            }
         }
     }
 }
@@ -169,6 +182,43 @@ pub fn run(ctx: &mut Ctx) {
                 Ok((e, _)) => forms(ctx, &env, rng, &e, &format!("synthetic[{}]", o.describe())),
                 Err(e) => ctx.inconclusive(&e),
             }
+        }
+    });
+
+    // time stamps are in 100 ns units: with alignment ON, stamped strings must obey the
+    // alignment law evaluated in exact arithmetic (frame periods that do not divide the rate)
+    let n = ctx.n(40, 3000);
+    ctx.run_cases("timestamp-units", n, false, |ctx, rng, _| {
+        use crate::mon::c09::{check_law, Ann, Verdict};
+        let mut e = bundled.clone();
+        e.condition.set_phoneme_alignment_flag(true);
+        let fperiod = *rng.pick(&[256usize, 250, 77, 240, 101, 333]);
+        let rate = *rng.pick(&[48000usize, 44100, 22050, 16000]);
+        e.condition.set_fperiod(fperiod);
+        e.condition.set_sampling_frequency(rate);
+        let nl = rng.range(2, 8);
+        let labels = env.corpus.utterance(rng, nl, 1);
+        let unit = fperiod as f64 * 1e7 / rate as f64;
+        let mut t = 0u64;
+        let mut ann = Vec::new();
+        let lines: Vec<String> = labels
+            .iter()
+            .map(|l| {
+                let s0 = t;
+                t += ((rng.range(6, 40) as f64 + *rng.pick(&[0.0, 0.25, 0.75])) * unit) as u64;
+                ann.push(Ann { start: Some(s0), end: Some(t) });
+                format!("{} {} {}", s0, t, l)
+            })
+            .collect();
+        match crate::synth::trajectories(&e, lines.clone()) {
+            Ok(run) => match check_law(&run.durations, &ann, 5, rate, fperiod, None) {
+                Verdict::Bad(sig, j) => ctx.violation(&format!("time-stamps-not-in-100ns-units:{}", sig), J::obj().set("rate", rate).set("fperiod", fperiod).set("lines", J::from(lines.clone())).set("observed", j)),
+                Verdict::Ok { .. } => {
+                    ctx.count("stamped_utterances_checked", 1.0);
+                    ctx.nontrivial(mix(&[31, rate as u64, fperiod as u64, hash_str(&lines.join("|"))]));
+                }
+            },
+            Err(er) => ctx.violation("wellformed-input-form-rejected", J::from(format!("{}", er))),
         }
     });
 
